@@ -136,6 +136,7 @@ func main() {
 		seed, _ := strconv.ParseUint(os.Args[2], 10, 64)
 		o := hx.NewOut(os.Args[4], os.Args[5])
 		gen(seed, os.Args[3], o)
+		o.Retry(func(l string) string { r, _ := runCase(l); return r }) // out of time in the parallel pass: re-run alone, 10x deadlines
 		o.Close()
 	case len(os.Args) >= 4 && os.Args[1] == "run":
 		o := hx.NewOut(os.DevNull, os.Args[3])
@@ -149,6 +150,7 @@ func main() {
 				o.Obs(r)
 			}
 		}
+		o.Retry(func(l string) string { r, _ := runCase(l); return r }) // out of time in the parallel pass: re-run alone, 10x deadlines
 		o.Close()
 	case len(os.Args) >= 3 && os.Args[1] == "dbg":
 		for _, l := range hx.ReadLines(os.Args[2]) {
